@@ -18,6 +18,11 @@ C50 — IDNA produces canonical A-labels and is idempotent; Punycode encode/deco
   (`alabel_statement_false_u16`); `alabel_holds_partial` is the statement minus that region.
 * `monitor_sound`: every observation the V-tie monitor accepts satisfies the property clauses.
 -/
+set_option linter.unusedSimpArgs false
+set_option linter.unusedTactic false
+set_option linter.unreachableTactic false
+set_option linter.unusedVariables false
+
 namespace NetVerif.Proofs.C50
 open NetVerif NetVerif.Model.Punycode NetVerif.Proofs.Lemmas.Punycode
 
@@ -40,16 +45,34 @@ theorem gen_madd_eq (a b c : Nat) :
 theorem gen_decodeDigit_eq (x : Nat) :
     Gen.C50.decodeDigit x = some (match decodeDigit x with | some d => ((d : Int), true) | none => (0, false)) := by
   unfold Gen.C50.decodeDigit decodeDigit
-  repeat' split
-  all_goals simp_all
-  all_goals omega
+  by_cases h1 : 48 ≤ x ∧ x ≤ 57
+  · have : ((48 : Int) ≤ x ∧ (x : Int) ≤ 57) := by omega
+    simp [h1, this] <;> omega
+  · have n1 : ¬ ((48 : Int) ≤ x ∧ (x : Int) ≤ 57) := by omega
+    by_cases h2 : 65 ≤ x ∧ x ≤ 90
+    · have : ((65 : Int) ≤ x ∧ (x : Int) ≤ 90) := by omega
+      simp [h1, n1, h2, this] <;> omega
+    · have n2 : ¬ ((65 : Int) ≤ x ∧ (x : Int) ≤ 90) := by omega
+      by_cases h3 : 97 ≤ x ∧ x ≤ 122
+      · have : ((97 : Int) ≤ x ∧ (x : Int) ≤ 122) := by omega
+        simp [h1, n1, h2, n2, h3, this] <;> omega
+      · have n3 : ¬ ((97 : Int) ≤ x ∧ (x : Int) ≤ 122) := by omega
+        simp [h1, n1, h2, n2, h3, n3]
 
 theorem gen_encodeDigit_eq (d : Nat) :
     Gen.C50.encodeDigit d = (encodeDigit d).map (fun c => (c : Int)) := by
+  have e : ∀ a b : Int, Int.emod a b = a % b := fun _ _ => rfl
   unfold Gen.C50.encodeDigit encodeDigit
-  repeat' split
-  all_goals simp_all
-  all_goals omega
+  simp only [e]
+  by_cases h1 : d < 26
+  · have : ((0 : Int) ≤ d ∧ (d : Int) < 26) := by omega
+    simp [h1, this] <;> omega
+  · have n1 : ¬ ((0 : Int) ≤ d ∧ (d : Int) < 26) := by omega
+    by_cases h2 : d < 36
+    · have : ((26 : Int) ≤ d ∧ (d : Int) < 36) := by omega
+      simp [h1, n1, h2, this] <;> omega
+    · have n2 : ¬ ((26 : Int) ≤ d ∧ (d : Int) < 36) := by omega
+      simp [h1, n1, h2, n2]
 
 theorem gen_threshold_eq (k bias : Nat) :
     Gen.C50.thresholdDecode k bias = some (threshold k bias : Int) ∧
@@ -66,21 +89,18 @@ theorem gen_adaptPre_eq (delta numPoints : Nat) (first : Bool) :
 theorem gen_adaptCond_eq (delta k : Nat) :
     Gen.C50.adaptCond delta k = decide (delta > ((base - tmin) * tmax) / 2) := by
   unfold Gen.C50.adaptCond base tmin tmax
-  simp
-  omega
+  simp <;> omega
 
 theorem gen_adaptBody_eq (delta k : Nat) :
     Gen.C50.adaptBody delta k = some (((delta / (base - tmin) : Nat) : Int), ((k + base : Nat) : Int)) := by
   unfold Gen.C50.adaptBody base tmin
-  simp [Int.tdiv_eq_ediv_of_nonneg]
-  omega
+  simp [Int.tdiv_eq_ediv_of_nonneg] <;> omega
 
 theorem gen_adaptRet_eq (delta k : Nat) :
     Gen.C50.adaptRet delta k = some ((k + (base - tmin + 1) * delta / (delta + skew) : Nat) : Int) := by
   unfold Gen.C50.adaptRet base tmin skew
   have h : (0 : Int) ≤ (36 - 1 + 1) * (delta : Int) := by omega
-  simp [Int.tdiv_eq_ediv_of_nonneg h]
-  norm_cast
+  simp [Int.tdiv_eq_ediv_of_nonneg] <;> norm_cast
 
 theorem gen_encDigitArg_eq (q t : Nat) (ht : t ≤ q) (ht' : t < 36) :
     Gen.C50.encDigitArg q t = some ((t + (q - t) % (base - t) : Nat) : Int) ∧
@@ -91,10 +111,8 @@ theorem gen_encDigitArg_eq (q t : Nat) (ht : t ≤ q) (ht' : t < 36) :
   have e2 : ((36 : Int) - (t : Int)) = ((36 - t : Nat) : Int) := by omega
   simp only [e1, e2]
   constructor
-  · simp [Int.tmod_eq_emod_of_nonneg]
-    norm_cast
-  · simp [Int.tdiv_eq_ediv_of_nonneg]
-    norm_cast
+  · simp [Int.tmod_eq_emod_of_nonneg] <;> norm_cast
+  · simp [Int.tdiv_eq_ediv_of_nonneg] <;> norm_cast
 
 theorem gen_decWeightMul_eq (t : Nat) (ht : t ≤ 36) :
     Gen.C50.decWeightMul t = some ((base - t : Nat) : Int) := by
@@ -246,18 +264,30 @@ theorem monitor_sound (o : Obs) (h : monitorObs o = none)
   unfold ObsOK
   repeat' split at h
   all_goals simp_all
+  all_goals (first | assumption | (intro h1 l hl h2; simp_all) | skip)
 
 /-! ## Non-vacuity -/
 
 example : encode [] [98, 252, 99, 104, 101, 114] = some [98, 99, 104, 101, 114, 45, 107, 118, 97] := by
-  decide
+  decide +kernel
 example : decode [98, 99, 104, 101, 114, 45, 107, 118, 97] = some [98, 252, 99, 104, 101, 114] := by decide
-example : decodeVar 72 36 0 1 (encodeVar 72 36 745 ++ [7]) = some (745, [7]) := by decide
+example : decodeVar 72 36 0 1 (encodeVar 72 36 745 ++ [7]) = some (745, [7]) := by decide +kernel
 example : undecodableALabel [120, 110, 45, 45, 45] = true := by decide
 example : asciiOnlyALabel [120, 110, 45, 45, 97, 98, 99, 45] = true := by decide
 example : processPunycode false true [120, 110, 45, 45, 97, 98, 99, 45] = ([97, 98, 99], false) := by decide
-example : monitorObs { transitional := false, vonly := false, x := [252], a := [120, 110, 45, 45, 116, 100, 97],
-    ae := false, aa := [120, 110, 45, 45, 116, 100, 97], aae := false, u := [252], ue := false,
-    au := [120, 110, 45, 45, 116, 100, 97], aue := false } = none := by decide
+def sampleObs : Obs where
+  transitional := false
+  vonly := false
+  x := [252]
+  a := [120, 110, 45, 45, 116, 100, 97]
+  ae := false
+  aa := [120, 110, 45, 45, 116, 100, 97]
+  aae := false
+  u := [252]
+  ue := false
+  au := [120, 110, 45, 45, 116, 100, 97]
+  aue := false
+
+example : monitorObs sampleObs = none := by decide +kernel
 
 end NetVerif.Proofs.C50
